@@ -69,6 +69,45 @@ def make(ld, vals, backing, upstream):
     return ds, get
 
 
+# sort-value domains: the same three symbols mapped to values that stress the
+# comparison (exact big integers, mixed int/float, both sides of 2**63, strings,
+# tuples); every mapping is injective and order-preserving or not - the oracle
+# only uses Python's own comparison of the mapped values
+DOMAINS = {
+    'small': {0: 0, 1: 1, 2: 2},
+    'big53': {0: 2 ** 53 + 1, 1: 2 ** 53 + 2, 2: 2 ** 53 + 3},
+    'ns+float': {0: 0.5, 1: 2 ** 53 + 1, 2: 2 ** 53 + 2},
+    'u64': {0: -1, 1: 2 ** 63 + 1, 2: 2 ** 63 + 2},
+    'huge': {0: 2 ** 64 + 1, 1: 2 ** 64 + 2, 2: 10 ** 30},
+    'float-close': {0: 1.0, 1: 1.0 + 2 ** -52, 2: 1.0 + 2 ** -51},
+    'str': {0: 'b', 1: 'B', 2: 'a10'},
+    'tuple': {0: (1, 'z'), 1: (1, 'a'), 2: (0, 'zz')},
+    'bool-int': {0: False, 1: 1, 2: 2.5},
+    'neg': {0: -3, 1: -2 ** 53 - 1, 2: -2 ** 53 - 2},
+}
+
+
+def check_sort_domain(ld, vals, domain, reverse, res):
+    case = {'op': 'sort-domain', 'vals': list(vals), 'domain': domain, 'reverse': reverse}
+    dm = DOMAINS[domain]
+    mapped = [dm[v] for v in vals]
+    n = len(vals)
+    res.case(('sortdom', tuple(vals), domain, reverse),
+             n >= 2 and mapped != sorted(mapped, reverse=reverse))
+    ds = ld.new({f'k{i}': {'id': i, 'v': m} for i, m in enumerate(mapped)})
+    sig = {'op': 'sort', 'keyed': True, 'domain': domain}
+    try:
+        out = [(e['id'], e['v']) for e in ds.sort(lambda e: e['v'], reverse=reverse)]
+    except BaseException as e:
+        res.violation('sort-raised', case, exc_sig(e), sig=sig)
+        return
+    res.count('sort_domain_checks')
+    if sorted(i for i, _ in out) != list(range(n)):
+        res.violation('sort-not-a-permutation', case, {'out': repr(out)}, sig=sig)
+    elif not monotone([v for _, v in out], reverse):
+        res.violation('sort-not-monotone', case, {'out': repr(out)}, sig=sig)
+
+
 def monotone(keys, reverse):
     if reverse:
         return all(a >= b for a, b in zip(keys, keys[1:]))
@@ -317,6 +356,11 @@ def run_shard(spec, res):
     elif spec['what'] == 'sortfn':
         for n in range(0, min(L, 6) + 1):
             for vals in itertools.product((0, 1, 2), repeat=n):
+                for domain in DOMAINS:
+                    for reverse in (False, True):
+                        check_sort_domain(ld, vals, domain, reverse, res)
+        for n in range(0, min(L, 6) + 1):
+            for vals in itertools.product((0, 1, 2), repeat=n):
                 for reverse in (False, True):
                     check_custom_sort_fn(ld, vals, reverse, res)
 
@@ -338,5 +382,7 @@ def replay(case, res):
         check_custom_sort_fn(ld, case['vals'], case['reverse'], res)
     elif op == 'sort-keyless':
         check_keyless(ld, case['key_order'], case['reverse'], case['upstream'], res)
+    elif op == 'sort-domain':
+        check_sort_domain(ld, case['vals'], case['domain'], case['reverse'], res)
     elif op == 'groupby':
         check_groupby(ld, case['vals'], case['backing'], case['upstream'], case['ids'], res)
